@@ -11,7 +11,9 @@
    - lengths and counts are ideal integers (no 2^63 wrap of len+count): files
      shorter than 2^62 bytes, see props/C18.json "assumptions".
    - decref's recursive release of children runs on fuel [S (length store)];
-     Proofs/RamfsProofs.v shows that this is enough in every reachable state.
+     running out of fuel stands for a recursion that does not end and is
+     reported as [Hang]; Proofs/RamfsProofsRef.v (decref_ok) shows that the
+     fuel is enough in every reachable state, so this never happens.
    Executable definitions only; lemmas are in Proofs/RamfsProofs*.v. *)
 From Coq Require Import String.
 From Coq Require Import List NArith ZArith Bool.
@@ -254,7 +256,6 @@ Definition e_invalidpath : bstr := str "invalidpath"%string.     (* WalkName / C
 Definition e_invalidpath2 : bstr := str "invalidpath2"%string.   (* FileHandle.Walk: "invalid path" *)
 Definition e_notfound : bstr := str "notfound"%string.
 Definition e_rmroot : bstr := str "rmroot"%string.
-Definition e_fuel : bstr := str "model-out-of-fuel"%string.
 
 Definition is_nil {A} (l : list A) : bool := match l with [] => true | _ => false end.
 
@@ -452,7 +453,7 @@ Definition sess_clunk (w : world) (s : nat) (fid : N) : world * res out :=
   | Some e =>
       match fh_clunk (wst w) (f_h e) with
       | Some s' => (set_sess (set_store w s') s (ft_del t fid), Ok RNone)
-      | None => (w, Err e_fuel)
+      | None => (w, Hang)
       end
   end.
 
@@ -464,7 +465,7 @@ Definition sess_remove (w : world) (s : nat) (fid : N) : world * res out :=
       match fh_remove (wst w) (f_h e) with
       | (Some s', None) => (set_sess (set_store w s') s (ft_del t fid), Ok RNone)
       | (Some s', Some er) => (set_sess (set_store w s') s (ft_del t fid), Err er)
-      | (None, _) => (w, Err e_fuel)
+      | (None, _) => (w, Hang)
       end
   end.
 
@@ -488,7 +489,7 @@ Definition sess_walk (w : world) (s : nat) (fid newfid : N) (names : list bstr) 
               if (newfid =? fid)%N then
                 match fh_clunk s1 (f_h ref) with
                 | Some s2 => (set_sess (set_store w s2) s (ft_set t fid (mkFid h2 None 0)), Ok (RQids qids))
-                | None => (w, Err e_fuel)
+                | None => (w, Hang)
                 end
               else (set_sess (set_store w s1) s (t ++ [(newfid, mkFid h2 None 0)]), Ok (RQids qids))
           end
@@ -532,7 +533,7 @@ Definition sess_create (w : world) (s : nat) (fid : N) (name : bstr) (perm mode 
           | _ =>               (* OpenDir of the new directory failed: the fid is unbound, the new entry released *)
               match fh_clunk (wst w1) h2 with
               | Some s2 => (set_sess (set_store w1 s2) s (ft_del t fid), Err e_c_notdir)
-              | None => (w1, Err e_fuel)
+              | None => (w1, Hang)
               end
           end
       end
